@@ -132,7 +132,7 @@ pub fn check_list(c: &ListCase) -> CheckResult {
 }
 pub const LIST_CLASSES: &[&str] = &["overlap_with_different_weights", "overlap", "contains_spaces", "empty_list", "six_plus_tokens"];
 
-pub const LITERALS_QUICK: &[Option<&str>] = &[None, Some("1"), Some("0"), Some("0.5"), Some("0.250000000000000000000000000000000000000000000000000000000000")];
+pub const LITERALS_QUICK: &[Option<&str>] = &[None, Some("1"), Some("0"), Some("0.5"), Some("1.00"), Some("0.250000000000000000000000000000000000000000000000000000000000")];
 pub const LITERALS_THOROUGH: &[Option<&str>] = &[
     None,
     Some("1"),
@@ -251,7 +251,7 @@ pub fn list_strategy(max: usize) -> impl Strategy<Value = ListCase> {
 }
 
 pub fn run(ctx: &mut Ctx) {
-    ctx.rule = "(1) exhaustive: all 3,796 well-formed tokens (13 pockets, 13 XX+, 78 pocket spans, 312 rank pairs in either rank order, 156 XYs+/XYo+, 572 kicker spans, 2,652 ordered card pairs) x weight literals (quick 5, thorough 17, incl. 60-digit literals; the literal that is sensitive to double rounding through f64 is left to C06, whose statement demands bit-identical weights) - the token must parse and expand to exactly the model's combo set, each once, at the literal's value, also as a one-token range. (2) proptest token lists of 0-12 (thorough 0-40) tokens, plus long lists of up to 320 tokens and lists that first cover all 1326 combos (22+,X2s+,X2o+ for every high card, or all 169 rank pairs, shuffled) and then override parts of them, over a 3-6 rank palette (frequent overlaps), generated weight literals 0.d{1,12} / 1.0.. , optional spaces around commas and at the ends, the empty and all-space strings; the parsed range must equal the model map (sequential insert, later wins), weights bit-identical. Non-trivial: tokens all; lists with >= 1 combo covered by two tokens of different weight; distinct by text.".into();
+    ctx.rule = "(1) exhaustive: all 3,796 well-formed tokens (13 pockets, 13 XX+, 78 pocket spans, 312 rank pairs in either rank order, 156 XYs+/XYo+, 572 kicker spans, 2,652 ordered card pairs) x weight literals (quick 6, thorough 17, incl. 60-digit literals; the literal that is sensitive to double rounding through f64 is left to C06, whose statement demands bit-identical weights) - the token must parse and expand to exactly the model's combo set, each once, at the literal's value, also as a one-token range. (2) proptest token lists of 0-12 (thorough 0-40) tokens, plus long lists of up to 320 tokens and lists that first cover all 1326 combos (22+,X2s+,X2o+ for every high card, or all 169 rank pairs, shuffled) and then override parts of them, over a 3-6 rank palette (frequent overlaps), generated weight literals 0.d{1,12} / 1.0.. , optional spaces around commas and at the ends, the empty and all-space strings; the parsed range must equal the model map (sequential insert, later wins), weights bit-identical. Non-trivial: tokens all; lists with >= 1 combo covered by two tokens of different weight; distinct by text.".into();
     ctx.assumptions = vec![
         "the literal's value is std's str::parse::<f32>() of the literal".into(),
         "spaces only around commas and at the ends; weights only from literals whose value is in [0,1]".into(),
